@@ -57,6 +57,15 @@ func (n *Number) trimTrailingZerosInTheFractionalPart() error {
 	return nil
 }
 
+func (n Number) isZero() bool {
+	for _, c := range n.nat.Data() {
+		if c != '0' {
+			return false
+		}
+	}
+	return true
+}
+
 func (n Number) int() bytes.Bytes {
 	return n.nat.SubHigh(bytes.Index(n.nat.Len() - n.exp))
 }
